@@ -2,8 +2,16 @@ package hash
 
 import "github.com/ozontech/file.d/plugin/action/hash/normalize"
 
-// VerifResetNormalizerCache empties the per-(pipeline, action index) normalizer cache, so that the next
-// Start builds the normalizer of its own config (a fresh process per config in production).
-func VerifResetNormalizerCache() {
-	normalizerCache = map[string]normalize.Normalizer{}
+var verifCaches = map[string]map[string]normalize.Normalizer{}
+
+// VerifUseNormalizerCache selects the normalizer cache that belongs to one config. In production the cache key is
+// (pipeline name, action index), i.e. one normalizer per configured action; the harness builds many configs under
+// the same pipeline name, so it keeps one cache per config text.
+func VerifUseNormalizerCache(configKey string) {
+	m, ok := verifCaches[configKey]
+	if !ok {
+		m = map[string]normalize.Normalizer{}
+		verifCaches[configKey] = m
+	}
+	normalizerCache = m
 }
